@@ -228,7 +228,7 @@ func (f *SexpField) SexpString(ps *PrintState) string {
 	str := " (" + hash.TypeName + " "
 
 	for i, key := range hash.KeyOrder {
-		val, err := hash.HashGet(nil, key)
+		val, err := hash.HashGet(hash.Env, key)
 		if err == nil {
 			switch s := key.(type) {
 			case *SexpStr:
@@ -243,9 +243,9 @@ func (f *SexpField) SexpString(ps *PrintState) string {
 			} else {
 				str += val.SexpString(nil) + "    "
 			}
-		} else {
-			panic(err)
 		}
+		// a key that cannot be looked up (a dot-symbol names a path, not a
+		// key) is left out, as the printer of SexpHash does; printing must not panic.
 	}
 	if len(hash.Map) > 0 {
 		return str[:len(str)-1] + ")"
